@@ -189,6 +189,49 @@ well_formed(const tsk_table_collection_t *t)
            && ragged_ok(t->provenances.record_offset, t->provenances.num_rows, t->provenances.record_length);
 }
 
+/* equality of everything that is not an optional column: used to tell "a key alteration only hid optional columns" from
+ * "the file loaded as something else" */
+static int
+core_equal(const tsk_table_collection_t *a, const tsk_table_collection_t *b)
+{
+    tsk_size_t j;
+    if (a->sequence_length != b->sequence_length || a->nodes.num_rows != b->nodes.num_rows || a->edges.num_rows != b->edges.num_rows
+        || a->sites.num_rows != b->sites.num_rows || a->mutations.num_rows != b->mutations.num_rows
+        || a->migrations.num_rows != b->migrations.num_rows || a->individuals.num_rows != b->individuals.num_rows
+        || a->populations.num_rows != b->populations.num_rows || a->provenances.num_rows != b->provenances.num_rows) {
+        return 0;
+    }
+    for (j = 0; j < a->nodes.num_rows; j++) {
+        if (a->nodes.flags[j] != b->nodes.flags[j] || a->nodes.time[j] != b->nodes.time[j] || a->nodes.population[j] != b->nodes.population[j]
+            || a->nodes.individual[j] != b->nodes.individual[j]) {
+            return 0;
+        }
+    }
+    for (j = 0; j < a->edges.num_rows; j++) {
+        if (a->edges.left[j] != b->edges.left[j] || a->edges.right[j] != b->edges.right[j] || a->edges.parent[j] != b->edges.parent[j]
+            || a->edges.child[j] != b->edges.child[j]) {
+            return 0;
+        }
+    }
+    for (j = 0; j < a->sites.num_rows; j++) {
+        if (a->sites.position[j] != b->sites.position[j] || a->sites.ancestral_state_offset[j + 1] != b->sites.ancestral_state_offset[j + 1]) {
+            return 0;
+        }
+    }
+    for (j = 0; j < a->mutations.num_rows; j++) {
+        if (a->mutations.site[j] != b->mutations.site[j] || a->mutations.node[j] != b->mutations.node[j]
+            || a->mutations.parent[j] != b->mutations.parent[j]) {
+            return 0;
+        }
+    }
+    for (j = 0; j < a->migrations.num_rows; j++) {
+        if (a->migrations.time[j] != b->migrations.time[j] || a->migrations.node[j] != b->migrations.node[j]) {
+            return 0;
+        }
+    }
+    return 1;
+}
+
 /* Byte classes of a kastore file (docs: kastore file format).  Reserved bytes are written as zero and never read
  * back; keys of columns that tskit treats as optional can be renamed into "unknown" keys, which are ignored by design. */
 static const char *optional_keys[] = { "individuals/parents", "individuals/parents_offset", "metadata", "metadata_schema",
@@ -244,7 +287,7 @@ item_skipped(FILE *f, int j, tsk_flags_t opt)
 
 /* 0: validated structural byte; 1: reserved/unvalidated byte; 2: key byte of an optional column; 3: other key byte;
  * 4: descriptor or key byte of an item that the selected skip_* read path never looks at (kastore still checks that
- *    the items pack consistently) */
+ *    the items pack consistently); 5: a byte of a descriptor's array_len */
 static int
 classify(FILE *f, int pos, int nitems, tsk_flags_t opt)
 {
@@ -257,7 +300,17 @@ classify(FILE *f, int pos, int nitems, tsk_flags_t opt)
         if ((off >= 1 && off <= 7) || off >= 40) {
             return 1;
         }
-        return item_skipped(f, (pos - 64) / 64, opt) ? 4 : 0;
+        if (item_skipped(f, (pos - 64) / 64, opt)) {
+            return 4;
+        }
+        return off >= 32 ? 5 : 0; /* 5: a byte of array_len */
+    }
+    {
+        /* alignment padding between the last key and the first array is never read */
+        int64_t kend = peek64(f, 64 + 64 * (nitems - 1) + 8) + peek64(f, 64 + 64 * (nitems - 1) + 16);
+        if (pos >= kend) {
+            return 1;
+        }
     }
     for (j = 0; j < nitems; j++) {
         int64_t ks = peek64(f, 64 + 64 * j + 8), kl = peek64(f, 64 + 64 * j + 16);
@@ -359,13 +412,27 @@ main_c10(void)
     sym_assert(ret <= 0, "error code");
 #if MODE == 3
     if (ret == 0) {
+        int eq = tsk_table_collection_equals(&t, &t2, opt ? TSK_CMP_IGNORE_TABLES | TSK_CMP_IGNORE_REFERENCE_SEQUENCE : 0);
         sym_reach("accepted");
-        if (cls != 2) {
-            sym_assert(tsk_table_collection_equals(&t, &t2, opt ? TSK_CMP_IGNORE_TABLES | TSK_CMP_IGNORE_REFERENCE_SEQUENCE : 0),
-                "a collection loaded from a structurally altered file equals the original");
+        if (cls == 2 || cls == 3) {
+            /* key bytes: keys are looked up by binary search over names that are assumed sorted; a renamed key can hide
+             * itself and other optional columns */
+            if (!eq) {
+                sym_assert(opt != 0 || core_equal(&t, &t2), "a file with an altered key byte loads with at most optional columns missing");
+            }
+        } else if (cls == 5) {
+            if (!eq) {
+                sym_assert(opt != 0 || core_equal(&t, &t2), "a file with an altered array length loads with at most an optional byte array resized into its padding");
+            }
+        } else {
+            sym_assert(eq, "a collection loaded from a structurally altered file equals the original");
         }
     }
-    if (cls == 1) {
+    if (cls == 5) {
+        sym_assert(ret != 0, "an altered array length byte is rejected");
+    } else if (cls == 3) {
+        sym_assert(ret != 0, "an altered key byte of a required column is rejected");
+    } else if (cls == 1) {
         sym_assert(ret != 0, "an altered reserved byte (header minor version / padding, descriptor padding) is rejected");
     } else if (cls == 2) {
         sym_assert(ret != 0, "an altered key byte of an optional column is rejected");
